@@ -202,6 +202,12 @@ def utf8_texts(rng, thorough, tlc_texts):
     for s in seqs:
         texts.append(s)
         texts.append(b"A" + s + b"B")
+    # insertion family: one foreign byte (ASCII, continuation, lead) inserted at every inner position of a well-formed
+    # multi-byte sequence; with every 2-chunking below, the foreign byte also arrives as the first byte of a chunk
+    for s in seqs[3:24]:
+        for pos in range(1, len(s)):
+            for b in (0x41, 0x28, 0x80, 0xc3, 0x00) if thorough or pos == 1 else (rng.choice([0x41, 0x28, 0x7f]),):
+                texts.append(s[:pos] + bytes([b]) + s[pos:])
     for _ in range(60 if not thorough else 1500):
         k = rng.choice([2, 2, 3])
         texts.append(b"".join(rng.choice(seqs) for _ in range(k)))
@@ -224,17 +230,20 @@ def utf8_execution(rng, t, n3):
     tri = [(i, j) for i in range(n + 1) for j in range(i, n + 1) if 0 < i < j < n]
     rng.shuffle(tri)
     splits += tri[:n3]
-    hows = ["new", "keep", "reset"]
-    for k, (i, j) in enumerate(splits):
-        if k > 0 and k % 5 == 0 and n > 1:
-            # dirty the decoder with a prefix of the text, then reset explicitly
-            ex += ["U8BEGIN reset", "U8UPD %s" % hx(t[:rng.randint(1, n - 1)]), "U8BEGIN reset"]
-        else:
-            ex.append("U8BEGIN %s" % hows[0 if k == 0 else 1 + (k % 2)])
-        for part in (t[:i], t[i:j], t[j:]):
-            if len(part) or rng.random() < 0.15:
-                ex.append("U8UPD %s" % hx(part))
-        ex.append("U8FIN")
+    # each chunking is run twice: through a decoder with a code point callback and through one created without
+    # (validation only: same verdicts, no code points)
+    for new in ("new", "newnocb"):
+        hows = [new, "keep", "reset"]
+        for k, (i, j) in enumerate(splits if new == "new" else splits[:n + 1]):
+            if k > 0 and k % 5 == 0 and n > 1:
+                # dirty the decoder with a prefix of the text, then reset explicitly
+                ex += ["U8BEGIN reset", "U8UPD %s" % hx(t[:rng.randint(1, n - 1)]), "U8BEGIN reset"]
+            else:
+                ex.append("U8BEGIN %s" % hows[0 if k == 0 else 1 + (k % 2)])
+            for part in (t[:i], t[i:j], t[j:]):
+                if len(part) or rng.random() < 0.15:
+                    ex.append("U8UPD %s" % hx(part))
+            ex.append("U8FIN")
     return ex
 
 
